@@ -1,6 +1,6 @@
 (* C01 — longest match wins, earlier pattern breaks ties, unmatched input is skipped. *)
 From Scnr Require Import Base Regex Automaton FindFrom FindFromProofs ModeProofs Iter IterRun IterProofs IterInst
-     HistoryProofs RuleProofs EquivCheck.
+     HistoryProofs RuleProofs EquivCheck Spec SpecRun SpecProofs.
 
 (* THE RULE AT ONE POSITION. For a mode automaton M without lookaheads whose automaton accepts
    exactly the pattern languages (lang_equiv: the conclusion of the C02 certificate of that very
@@ -61,6 +61,30 @@ Proof.
   - apply Forall_forall. intros m Hm. apply in_map_iff in Hm as (c & <- & _). apply Hms.
 Qed.
 Print Assumptions C01_lang_equiv_from_certificate.
+
+(* THE EXECUTABLE SPECIFICATION used as oracle by the correspondence check (Spec.v: best_cand
+   over the pattern ASTs, no automaton involved) is exactly find_from on any automaton that
+   accepts the pattern languages, for a mode without lookaheads whose token types are distinct
+   and listed in pattern order; and best_cand itself is a maximal candidate of the declarative
+   candidate set (extent, then pattern order). *)
+Theorem C01_find_equals_specification :
+  forall (tbl leaf:N -> N -> bool) (M:mode_aut) (ps:list spat),
+  mode_ok M -> las M = [] -> (forall p, In p ps -> sp_la p = None) ->
+  tids (main M) = map sp_tok ps -> NoDup (map sp_tok ps) ->
+  lang_equiv tbl leaf (main M) (rs_of ps) ->
+  forall s, find_mode tbl M s = Ok (best_cand leaf ps s).
+Proof. exact find_mode_eq_best_cand. Qed.
+Print Assumptions C01_find_equals_specification.
+
+Theorem C01_specification_is_maximal_candidate :
+  forall leaf ps s,
+  match best_cand leaf ps s with
+  | None => forall x i t e, ~ SCand leaf ps s x i t e
+  | Some (t, e) => exists x i, SCand leaf ps s x i t e /\
+      forall x' i' t' e', SCand leaf ps s x' i' t' e' -> x' < x \/ (x' = x /\ i <= i')
+  end.
+Proof. exact best_cand_spec. Qed.
+Print Assumptions C01_specification_is_maximal_candidate.
 
 (* add_patterns: the token type is the index of the pattern *)
 Theorem C01_simple_builder_types :
